@@ -314,5 +314,16 @@ fn run(t: &[&str]) -> String {
 }
 
 fn main() {
+    // Allocator tuning (timing only): every zstd::encode_all of the catalogue writer allocates ~100 MB of fresh
+    // tables; in this sandbox first-touch page faults make that cost 0.5-15 s per call.  Keeping freed memory in
+    // the (single) heap makes all but the first archive of a process cheap.
+    unsafe {
+        let a = libc::mallopt(libc::M_MMAP_THRESHOLD, 1 << 30);
+        let b = libc::mallopt(libc::M_TRIM_THRESHOLD, i32::MAX);
+        let c = libc::mallopt(libc::M_ARENA_MAX, 1);
+        if std::env::var("VERIF_C04_DEBUG").is_ok() {
+            eprintln!("mallopt: mmap_threshold={} trim_threshold={} arena_max={}", a, b, c);
+        }
+    }
     runner::main_loop(run);
 }
